@@ -263,6 +263,8 @@ def corpus():
       edit(mm, MMQ + 'greedy_search', lambda n: isinstance(n, ast.Assign) and norm(n.targets[0]) == 'group_star_trt[k + 1]', lambda s, n: 'group_star_trt[k + 2] = group_trt'))
   add('C09', 'control table read while matching is pending', 'bad', 'R1d/dict-keys',
       edit(mm, MMQ + 'greedy_search', lambda n: isinstance(n, ast.Assign) and norm(n.targets[0]) == 'r_control', lambda s, n: s.replace('group_ctl | group_star_trt[k]', 'group_star_ctl[k] | group_star_trt[k]')))
+  add('C09', 'revert fix: integer-valued floats not converted to int', 'bad', 'R1g/integer-parameters',
+      delete_stmt(dp, 'TBRMMDesignParameters._test_value_vs_threshold', lambda n: isinstance(n, ast.If) and norm(n.test) == 'isinstance(bound, int)'))
   add('C09', 'benign: guard written as len(...) == 0', 'benign', None,
       edit(mm, MMQ + 'design_within_constraints', lambda n: isinstance(n, ast.BoolOp) and norm(n) == 'not treatment_geos or not control_geos',
            lambda s, n: 'len(treatment_geos) == 0 or len(control_geos) == 0'))
